@@ -94,6 +94,15 @@ theorem expo_absmax (E M : ℕ) (hM : M ≤ 23) : expo (absmaxBits E M) = 2 ^ (E
   unfold absmaxBits expo
   rw [Nat.add_comm, Nat.add_mul_div_right _ _ (by positivity), Nat.div_eq_of_lt hlt, Nat.zero_add]
 
+theorem offNearest_lt (M : ℕ) : offNearest M < 2 ^ (23 - M) := by
+  unfold offNearest
+  have := pow_pos' (23 - M)
+  omega
+
+theorem bne_add_right (A B D : ℕ) : ((A + D) != (B + D)) = (A != B) := by
+  rw [Bool.eq_iff_iff, bne_iff_ne, bne_iff_ne]
+  exact ⟨fun h e => h (by rw [e]), fun h e => h (Nat.add_right_cancel e)⟩
+
 section capstone
 variable (E M n : ℕ) (hE : 1 ≤ E) (hB : 2 ^ (E - 1) ≤ 127) (hM : M ≤ 23)
   (hmax : n ≤ absmaxBits E M) (hnorm : 127 - 2 ^ (E - 1) < expo n)
@@ -102,8 +111,8 @@ include hE hB hM hmax hnorm
 
 /-- facts shared by the capstone theorems: the down-scaled pattern `q`, its binade `e'`, and the rounded
     pattern `r`, which stays in `[e'·2^23, (e'+1)·2^23]` -/
-theorem capstone_setup (d q e' r : ℕ) (hd : d = 127 - 2 ^ (E - 1)) (hq : q = n - d * 2 ^ 23) (he' : e' = expo n - d)
-    (hr : r = roundCore (23 - M) (offNearest M) q) :
+theorem capstone_setup_off (off : ℕ) (hoff : off < 2 ^ (23 - M)) (d q e' r : ℕ) (hd : d = 127 - 2 ^ (E - 1))
+    (hq : q = n - d * 2 ^ 23) (he' : e' = expo n - d) (hr : r = roundCore (23 - M) off q) :
     1 ≤ e' ∧ e' * 2 ^ 23 ≤ q ∧ q < (e' + 1) * 2 ^ 23 ∧ e' * 2 ^ 23 ≤ r ∧ r ≤ (e' + 1) * 2 ^ 23 ∧
       expo n ≤ 2 ^ (E - 1) - 1 + 127 ∧ 2 ^ (23 - M) ∣ r := by
   have hnorm' : d < expo n := hd ▸ hnorm
@@ -120,10 +129,6 @@ theorem capstone_setup (d q e' r : ℕ) (hd : d = 127 - 2 ^ (E - 1)) (hq : q = n
     rw [h1, hq, Nat.sub_mul]
     exact Nat.sub_lt_sub_right (le_trans hdn hlo) hhi
   have hk : 23 - M ≤ 23 := by omega
-  have hoff : offNearest M < 2 ^ (23 - M) := by
-    unfold offNearest
-    have := pow_pos' (23 - M)
-    omega
   obtain ⟨hlo', hhi'⟩ := enclosing_in_binade (23 - M) e' q hk hq1 hq2
   refine ⟨he1, hq1, hq2, ?_, ?_, hexp, hr ▸ round_core_multiple _ _ _⟩
   · rcases round_core_neighbour (23 - M) _ q hoff with h | h
@@ -134,6 +139,12 @@ theorem capstone_setup (d q e' r : ℕ) (hd : d = 127 - 2 ^ (E - 1)) (hq : q = n
     · rw [hr, h]
       exact le_trans (Nat.div_mul_le_self _ _) (le_of_lt hq2)
     · rw [hr, h]; exact hhi'
+
+theorem capstone_setup (d q e' r : ℕ) (hd : d = 127 - 2 ^ (E - 1)) (hq : q = n - d * 2 ^ 23) (he' : e' = expo n - d)
+    (hr : r = roundCore (23 - M) (offNearest M) q) :
+    1 ≤ e' ∧ e' * 2 ^ 23 ≤ q ∧ q < (e' + 1) * 2 ^ 23 ∧ e' * 2 ^ 23 ≤ r ∧ r ≤ (e' + 1) * 2 ^ 23 ∧
+      expo n ≤ 2 ^ (E - 1) - 1 + 127 ∧ 2 ^ (23 - M) ∣ r :=
+  capstone_setup_off E M n hE hB hM hmax hnorm (offNearest M) (offNearest_lt M) d q e' r hd hq he' hr
 
 /-- **Error bound on values**: the quantised value is within half a format spacing of the input, the
     spacing of the format at the input's binade being `2^(23−M) · 2^(expo n − 150)`. -/
@@ -220,6 +231,44 @@ theorem quantise_format_value :
     refine ⟨e' + 1, 0, by omega, by positivity, ?_⟩
     rw [hreq, hd]
     exact quant_value_is_format_value E M (e' + 1) 0 hE hB hM (by omega) (by positivity) (by omega)
+
+/-- up-scaling back is injective on the candidates: two rounded patterns give the same result iff they are equal -/
+theorem quantMag_ne_iff (off1 off2 : ℕ) (h1 : off1 < 2 ^ (23 - M)) (h2 : off2 < 2 ^ (23 - M)) :
+    (quantMag E M off1 n != quantMag E M off2 n) =
+      (roundCore (23 - M) off1 (n - (127 - 2 ^ (E - 1)) * 2 ^ 23) != roundCore (23 - M) off2 (n - (127 - 2 ^ (E - 1)) * 2 ^ 23)) := by
+  rw [quantMag_normal_eq E M off1 n hB hmax hnorm, quantMag_normal_eq E M off2 n hB hmax hnorm]
+  obtain ⟨he1, _, _, ha1, ha2, hexp, _⟩ := capstone_setup_off E M n hE hB hM hmax hnorm off1 h1 _ _ _ _ rfl rfl rfl rfl
+  obtain ⟨_, _, _, hb1, hb2, _, _⟩ := capstone_setup_off E M n hE hB hM hmax hnorm off2 h2 _ _ _ _ rfl rfl rfl rfl
+  have hpos : 0 < 2 ^ (E - 1) := by positivity
+  have key : ∀ r, (expo n - (127 - 2 ^ (E - 1))) * 2 ^ 23 ≤ r → r ≤ (expo n - (127 - 2 ^ (E - 1)) + 1) * 2 ^ 23 →
+      mulPow2 r (127 - 2 ^ (E - 1)) = r + (127 - 2 ^ (E - 1)) * 2 ^ 23 := by
+    intro r hr1 hr2
+    apply mulPow2_normal
+    · exact le_trans he1 (expo_ge_of r _ hr1)
+    · have : expo r ≤ expo n - (127 - 2 ^ (E - 1)) + 1 := by
+        rcases Nat.lt_or_ge r ((expo n - (127 - 2 ^ (E - 1)) + 1) * 2 ^ 23) with h | h
+        · exact le_trans (expo_lt_of r _ h) (by omega)
+        · have : r = (expo n - (127 - 2 ^ (E - 1)) + 1) * 2 ^ 23 := le_antisymm hr2 h
+          rw [this]; unfold expo; simp
+      omega
+  rw [key _ ha1 ha2, key _ hb1 hb2]
+  exact bne_add_right _ _ _
+
+/-- **C14, end to end**: for an in-range normal input the number of random draws for which
+    `FPFormat.quantise` rounds away from zero is the count of the integer core on the down-shifted
+    pattern — to which `sr_count`, `sr_prob_exact`, `sr_prob_half_ulp` and `sr_prob_exact_value` apply. -/
+theorem countUp_eq_core (srbits : ℕ) (hs : srbits ≤ 23 - M) :
+    countUp E M srbits n = countUpCore (23 - M) (23 - M - srbits) (n - (127 - 2 ^ (E - 1)) * 2 ^ 23) := by
+  unfold countUp countUpCore
+  have hk : 23 - M - (23 - M - srbits) = srbits := by omega
+  rw [hk]
+  apply List.countP_congr
+  intro r hr
+  have hr' : r < 2 ^ srbits := List.mem_range.mp hr
+  have h0 : (0 : ℕ) < 2 ^ (23 - M) := by positivity
+  have hoff := USProofs.C14.offSR_lt M srbits r hs hr'
+  unfold roundsUp roundsUpCore
+  rw [quantMag_ne_iff E M n hE hB hM hmax hnorm (offSR M srbits r) 0 hoff h0, USProofs.C14.offSR_eq]
 
 end capstone
 
